@@ -196,17 +196,8 @@ impl Core {
         if s.sp.oti.sch == Scheme::Raptor && (s.fdts.is_empty() || s.fdts.iter().any(|f| ks_of(&s.sp.oti, f.len).iter().any(|k| *k == 2 || *k == 3))) {
             v.push("C01:raptor-block-lt4");
         }
-        if matches!(s.sp.oti.sch, Scheme::Rs | Scheme::RsUs) && s.sp.oti.p == 0 {
-            v.push("C01:D21-rs-parity0");
-        }
-        if matches!(oi.oti.sch, Scheme::Rs | Scheme::RsUs) && oi.oti.p == 0 && oi.tl.unwrap_or(0) > 0 {
-            v.push("C01:D21-rs-parity0");
-        }
         if oi.oti.sch == Scheme::Raptor && ks_of(&oi.oti, oi.tl.unwrap_or(0)).iter().any(|k| *k == 2 || *k == 3) {
             v.push("C01:raptor-block-lt4");
-        }
-        if (oi.p.src == "stream" || oi.p.src == "sparse" || oi.p.src == "file") && oi.p.cenc != "null" {
-            v.push("C01:D18-stream-cenc");
         }
         v
     }
@@ -221,7 +212,6 @@ impl Core {
             .objs
             .iter()
             .flat_map(|oi| self.known_classes(s, oi))
-            .filter(|c| *c != "C01:D18-stream-cenc")
             .next()
             .unwrap_or("C01:sender-panic");
         let cls = if s.sp.prop == "C01" || cls != "C01:sender-panic" { cls.to_string() } else { format!("{}:sender-panic", s.sp.prop) };
